@@ -12,8 +12,21 @@ def load_unitab(path):
     UNITAB = json.load(open(path))
 
 _pred_cache = {}
+CHAR_LIMIT = [None]       # when set (by a check that states it): list of (lo, hi) code-point blocks symbolic chars are assumed to lie in
+STD_BLOCKS = [(0x0, 0x24F), (0x3000, 0x303F), (0x4E00, 0x9FFF), (0xFF00, 0xFFEF), (0x1F300, 0x1F5FF)]
+def set_blocks(b):
+    if b is None: CHAR_LIMIT[0] = None
+    elif isinstance(b, int): CHAR_LIMIT[0] = [(0, b)]
+    else: CHAR_LIMIT[0] = [tuple(x) for x in b]
 def char_pred(name, c):
     tab = UNITAB[name]
+    if CHAR_LIMIT[0] is not None and not isinstance(c, int):
+        out = []
+        for a, b in tab:
+            for lo, hi in CHAR_LIMIT[0]:
+                x, y = max(a, lo), min(b, hi)
+                if x <= y: out.append([x, y])
+        tab = out
     if isinstance(c, int):
         lo, hi = 0, len(tab) - 1
         while lo <= hi:
@@ -23,20 +36,22 @@ def char_pred(name, c):
             elif c > b: lo = mid + 1
             else: return True
         return False
-    key = (name, c.get_id())
+    key = (name, c.get_id(), str(CHAR_LIMIT[0]))
     e = _pred_cache.get(key)
     if e is None:
         parts = []
         for a, b in tab:
             if a == b: parts.append(c == z3.BitVecVal(a, 32))
             else: parts.append(z3.And(z3.UGE(c, z3.BitVecVal(a, 32)), z3.ULE(c, z3.BitVecVal(b, 32))))
-        e = z3.Or(*parts)
+        e = z3.Or(*parts) if parts else z3.BoolVal(False)
         _pred_cache[key] = (e, c)      # keep c alive so ids are not reused
         return e
     return e[0]
 
 def valid_char(c):
     """constraint that a 32-bit value is a Unicode scalar value"""
+    if CHAR_LIMIT[0] is not None:
+        return z3.Or(*[z3.And(z3.UGE(c, z3.BitVecVal(lo, 32)), z3.ULE(c, z3.BitVecVal(min(hi, 0xD7FF) if lo < 0xD800 else hi, 32))) for lo, hi in CHAR_LIMIT[0]])
     return z3.And(z3.ULE(c, z3.BitVecVal(0x10FFFF, 32)), z3.Or(z3.ULT(c, z3.BitVecVal(0xD800, 32)), z3.UGT(c, z3.BitVecVal(0xDFFF, 32))))
 
 for _n in ('is_alphanumeric', 'is_alphabetic', 'is_numeric', 'is_whitespace', 'is_lowercase', 'is_uppercase', 'is_control'):
@@ -223,9 +238,14 @@ def fmt_f64(x):
     if r.endswith('.0'): r = r[:-2]
     return sign + r
 
-def fmt_debug_str(ch):
+def fmt_debug_str(ch, it=None):
     out = [ord('"')]
     for c in ch:
+        if not isinstance(c, int):
+            # exact only where the check asks for it (Typst quotes names with {:?}); elsewhere {:?} only feeds error messages
+            if it is not None and getattr(it, 'strict_debug', False) and not truth(it, char_pred('debug_plain', c)):
+                raise Unsupported('Debug rendering of a symbolic char that std escapes')
+            out.append(c); continue
         if isinstance(c, int) and c in (34, 92): out += [92, c]
         elif isinstance(c, int) and c == 10: out += [92, ord('n')]
         elif isinstance(c, int) and c == 9: out += [92, ord('t')]
@@ -300,37 +320,52 @@ def parse_int(it, ch, ty):
 FLOAT_RE = re.compile(r'^[+-]?(?:(?:\d+\.?\d*|\.\d+)(?:[eE][+-]?\d+)?|inf|infinity|nan)$', re.I)
 
 def parse_float(it, ch):
+    """model of <f64 as FromStr>::from_str on a char list that may hold symbolic chars.  Every symbolic char is first
+    classified by branching (each special char of the float grammar is a class of its own, decimal digits are one
+    class, everything else is "other"), so the literal's shape is concrete on the path; digits stay symbolic and the
+    value is an exact real (SymReal) unless the literal is inf/nan."""
     if not all(isinstance(c, int) for c in ch):
-        # decide the shape of each symbolic char: digit / '.' / other
         shape = []
+        specials = [ord(x) for x in '.eE+-iInNfFaAtTyY']
         for c in ch:
             if isinstance(c, int): shape.append(c); continue
-            if truth(it, z3.And(z3.UGE(c, 48), z3.ULE(c, 57))): shape.append(('d', c))
-            elif truth(it, c == 46): shape.append(46)
-            else: shape.append(('x', c))
-        if any(isinstance(s, tuple) and s[0] == 'x' for s in shape):
-            # an arbitrary other char: only [0-9.eE+-] and the letters of inf/nan could still parse; keep it simple & sound:
-            for s in shape:
-                if isinstance(s, tuple) and s[0] == 'x':
-                    c = s[1]
-                    special = [ord(x) for x in 'eE+-iInNfFaAtTyY']
-                    if truth(it, z3.Or(*[c == k for k in special])):
-                        raise Unsupported('symbolic exponent/sign/inf/nan char in float literal')
-            return err(Opaque('ParseFloatError', 'Invalid'))
-        txt = ''.join(chr(s) if isinstance(s, int) else '7' for s in shape)
-        if not FLOAT_RE.match(txt): return err(Opaque('ParseFloatError', 'Invalid'))
-        if 'e' in txt.lower(): raise Unsupported('symbolic float with exponent')
-        # exact rational value as a z3 Real; rounding to f64 is monotone and 0,1 are representable, so comparisons
-        # with 0.0/1.0 on the real value coincide with comparisons on the rounded f64
-        ip, _, fp = txt.partition('.')
-        digs = [s for s in shape if s != 46]
-        npoint = len(ip)
+            if truth(it, z3.And(z3.UGE(c, 48), z3.ULE(c, 57))): shape.append(('d', c)); continue
+            for k in specials:
+                if truth(it, c == k): shape.append(k); break
+            else:
+                return err(Opaque('ParseFloatError', 'Invalid'))
+        txt = ''.join(chr(s_) if isinstance(s_, int) else '7' for s_ in shape)
+        if not FLOAT_RE.match(txt): return err(Opaque('ParseFloatError', 'Empty' if not txt else 'Invalid'))
+        low = txt.lower().lstrip('+-')
+        if low in ('inf', 'infinity'): return ok(float('-inf') if txt[0] == '-' else float('inf'))
+        if low == 'nan': return ok(float('nan'))
+        neg = txt[0] == '-'
+        body = shape[1:] if txt[0] in '+-' else shape
+        epos = next((i_ for i_, s_ in enumerate(body) if s_ in (101, 69)), None)
+        mant = body if epos is None else body[:epos]
+        exp = 0
+        if epos is not None:
+            es = body[epos + 1:]; eneg = False
+            if es and es[0] in (43, 45): eneg = es[0] == 45; es = es[1:]
+            for d in es:
+                if isinstance(d, int): dv = d - 48
+                else:
+                    dv = None
+                    for k in range(10):
+                        if truth(it, d[1] == 48 + k): dv = k; break
+                exp = exp * 10 + dv
+            if eneg: exp = -exp
+            if abs(exp) > 400: raise Unsupported('huge symbolic exponent')
+        ip = [x for x in mant]
+        point = next((i_ for i_, s_ in enumerate(ip) if s_ == 46), len(ip))
+        digs = [s_ for s_ in ip if s_ != 46]
         val = z3.RealVal(0)
-        for i, s in enumerate(digs):
-            d = z3.RealVal(s - 48) if isinstance(s, int) else z3.BV2Int(s[1] - 48)
-            e = npoint - 1 - i
-            val = val + d * (z3.RealVal(10) ** e if e >= 0 else z3.RealVal(1) / (z3.RealVal(10) ** (-e)))
-        return ok(SymReal(val))
+        for i_, s_ in enumerate(digs):
+            d = z3.RealVal(s_ - 48) if isinstance(s_, int) else z3.ToReal(z3.BV2Int(s_[1] - 48))
+            e = point - 1 - i_ + exp
+            val = val + d * (z3.RealVal(10 ** e) if e >= 0 else z3.RealVal(1) / z3.RealVal(10 ** (-e)))
+        if neg: val = -val
+        return ok(SymReal(val, neg))
     txt = ''.join(chr(c) for c in ch)
     if not FLOAT_RE.match(txt): return err(Opaque('ParseFloatError', 'Empty' if not txt else 'Invalid'))
     t = txt.lower()
